@@ -22,4 +22,4 @@ DESIGN_FUNCS = [f"{D}:DesignNearSquare.find_design#nocap", f"{D}:DesignNearSquar
                 f"{M}:GHEManager.find_design#DesignNearSquare-nocap", f"{M}:GHEManager.find_design#DesignNearSquare-cap",
                 f"{M}:GHEManager.find_design#DesignRectangle-nocap", f"{M}:GHEManager.find_design#DesignRectangle-cap"]
 SEARCH_NATIVES = [f"{S}:RowWiseModifiedBisectionSearch.search", f"{U}:sign", f"{U}:solve_root", f"{S}:Bisection1D.search#nocap", f"{S}:Bisection1D.search#cap",
-                  f"{S}:BisectionZD.search_successive#nocap"]
+                  f"{S}:BisectionZD.search_successive#nocap", f"{G}:BaseGHE.cost"]
